@@ -69,7 +69,7 @@ def dup_key_getitem(source):
 
 
 def classify(prog, o, why):
-    if why and "still fails" in why and dup_key_getitem(prog["source"]):
+    if why and ("still fails" in why or "did not run to its end" in why) and dup_key_getitem(prog["source"]):
         return "F-39"
     return None
 
@@ -96,6 +96,8 @@ def run(ctx: Ctx):
         "B: test modules with 1-6 snapshot sites (==, <=, >=, in, [k]; simple and rich value universe; previous content missing / equal / mutated 1-3 times / unrelated type; "
         "hand-written leaves, comments, multi-line layout, redundant parentheses; several sites per test so that later ones come after a failing one) run once with create,fix; "
         "then every test must pass with inline-snapshot inactive; a sample also through real pytest sessions (create,fix then disable). "
+        "C: == snapshots holding nested lists / tuples (depth <= 3, hand-written leaves) vs edited observed values (insert, delete, swap, retype, nested edits) x subsets of "
+        "{fix, update}: nesting, leaf values and surviving hand-written leaves of the rewritten argument vs Model/TreeAssign.v in Coq. "
         "non-trivial = >= 2 sites or nested / non-builtin values")
     proof_step(ctx)
     # A
@@ -142,6 +144,31 @@ def run(ctx: Ctx):
             ctx.report("C02 oracle: " + why, {"kind": "prog", "source": p["source"], "after": o.get("after")}, tag=classify(p, o, why))
     ctx.coverage["oracle"]["programs"] = m
     ctx.sample({"program": progs[0]["source"][-600:], "after": res[0].get("after", "")[-600:]})
+    # C: nested list / tuple snapshots vs Model/TreeAssign.v
+    from .. import treeassign as ta
+    nt_ = 500 if not ctx.thorough else 6000
+    tcases = [ta.gen_case(ctx.rng) for _ in range(nt_)]
+    touts = pmap(ta.run_case, tcases, chunksize=8)
+    tterms, tidx = [], []
+    for i, (c, o) in enumerate(zip(tcases, touts)):
+        ctx.count(("tree", repr(c)), ta.tree_value(c["tree"]) != c["new"])
+        ctx.dist("C.flags=" + ",".join(c["flags"]))
+        if o["session_exc"] or "error" in o:
+            ctx.report(f"nested == snapshot: run failed: {o['session_exc'] or o.get('error')}", {"kind": "tree", "case": dict(c, new_repr=repr(c["new"])), "source": o["source"]})
+            continue
+        why = ta.oracle(c, o)
+        if why:
+            ctx.report("C02 oracle (nested container): " + why, {"kind": "tree", "case": dict(c, new_repr=repr(c["new"])), "source": o["source"], "after_arg": o["arg"]})
+            continue
+        tterms.append(ta.g_case(c, o))
+        tidx.append(i)
+    tbad = coq_eval_shards(ctx, "treeassign", "Model.SnapOps Model.TreeAssign Corr.TreeAssignCorr", "case", tterms, "mismatches")
+    ctx.coverage["traces_validated_against_impl"] += len(tterms)
+    ctx.coverage["correspondence"]["nested_assign"] = {"cases": len(tterms), "mismatches": len(tbad)}
+    for j in tbad[:10]:
+        c, o = tcases[tidx[j]], touts[tidx[j]]
+        ctx.report(f"Model/TreeAssign.v and implementation differ (oracle silent): {ta.render_tree(c['tree'])} observed {c['new']!r} flags {c['flags']} -> {o['arg']}",
+                   {"kind": "tree", "case": dict(c, new_repr=repr(c["new"])), "source": o["source"]}, no_input=True, kind="correspondence")
     # real sessions
     sp = [gen_prog(ctx.rng, i) for i in range(SESSION_PROGS if not ctx.thorough else 80)]
     for p, o in zip(sp, tmap(run_session_pair, sp)):
@@ -166,6 +193,15 @@ def replay(ctx: Ctx, data):
         o = run_prog({"source": c["source"]})
         print(o.get("after"), o.get("second"))
         return judge(None, o) is None
+    if c.get("kind") == "tree":
+        from .. import treeassign as ta
+
+        def tt(t):
+            return ("leaf", t[1], t[2]) if t[0] == "leaf" else (t[0], [tt(x) for x in t[1]])
+        case = {"tree": tt(c["case"]["tree"]), "new": eval(c["case"]["new_repr"]), "flags": tuple(c["case"]["flags"])}
+        o = ta.run_case(case)
+        print(o.get("arg"), o.get("error"), o.get("session_exc"))
+        return not o["session_exc"] and "error" not in o and ta.oracle(case, o) is None
     if c.get("kind") == "session":
         o = run_session_pair({"source": c["source"]})
         print(o["tail2"])
